@@ -2,7 +2,7 @@ SPECIFICATION Spec
 CONSTANTS
   MaxLen = 6
   Dump = TRUE
-  BodySel = {11, 29}
+  BodySel = {11, 30}
 INVARIANT Consistent
 INVARIANT FinallyOnce
 INVARIANT CleanupOnDel
